@@ -27,6 +27,7 @@ Tie, re-established on every run against TEAAL_REPO's working tree:
 import collections
 import random
 import re
+import time
 
 import vlib
 from vlib import clist, cpos
@@ -41,7 +42,8 @@ LEVEL = "proof"
 
 COQ_IMPORTS = ["TV.Model.Show", "TV.Model.FlowOrder"]
 
-STRATEGIES = ["random", "lifo", "loopsfirst", "loopslast", "fifo"]
+MAX_EXECUTED_VARIANTS = 3     # networkx's order + the first two tie-breaks that change the text
+STRATEGIES = ["random", "lifo", "loopsfirst", "loopslast", "fifo", "lazy"]
 
 
 # ----------------------------------------------------------------------------
@@ -62,13 +64,28 @@ class TieBreak:
         return getattr(self._nx, k)
 
     def topological_sort(self, g):
-        from teaal.ir.flow_nodes import LoopNode
+        from teaal.ir.flow_nodes import LoopNode, EndLoopNode, OtherNode
         rng = random.Random("%s-%d" % (self.strat, self.seed))
         indeg = {n: g.in_degree(n) for n in g.nodes}
         ready = [n for n in g.nodes if indeg[n] == 0]
         out = []
+        needed = []
+        if self.strat == "lazy":
+            # every statement as late as possible: only what the next loop opening / update / loop
+            # closing needs is emitted before it, so whatever does not depend on a loop lands
+            # behind the loop node and the hoist pass has to lift it
+            chain = [n for n in g.nodes if isinstance(n, (LoopNode, EndLoopNode)) or n == OtherNode("Body") or n == OtherNode("Footer")]
+            anc = {n: self._nx.ancestors(g, n) for n in chain}
+            chain.sort(key=lambda n: len(anc[n]))
+            needed = [anc[n] | {n} for n in chain]
+        done = set()
         while ready:
-            if self.strat == "random":
+            if self.strat == "lazy":
+                while needed and needed[0] <= done:
+                    needed.pop(0)
+                cand = [j for j, n in enumerate(ready) if needed and n in needed[0]]
+                i = rng.choice(cand) if cand else rng.randrange(len(ready))
+            elif self.strat == "random":
                 i = rng.randrange(len(ready))
             elif self.strat == "lifo":
                 i = len(ready) - 1
@@ -86,6 +103,7 @@ class TieBreak:
                 raise ValueError(self.strat)
             n = ready.pop(i)
             out.append(n)
+            done.add(n)
             for _, m in g.out_edges(n):
                 indeg[m] -= 1
                 if indeg[m] == 0:
@@ -149,7 +167,7 @@ def record_of(program, pre_fg, fg):
     return {"names": names, "edges": edges, "same_graph": pre_edges == edges and sorted(names) == sorted(repr(n) for n in pre_fg.get_graph().nodes),
             "pre": pre, "post": post, "ranks": ranks,
             "loops": [repr(LoopNode(r)) for r in ranks], "ends": [repr(EndLoopNode(r)) for r in ranks],
-            "body": repr(OtherNode("Body")), "post_nodes": list(fg.get_sorted())}
+            "body": repr(OtherNode("Body"))}
 
 
 # ----------------------------------------------------------------------------
@@ -344,26 +362,27 @@ def gather(ctx):
     rng = ctx.rng
     q = ctx.quick()
     pops = []
-    pops += list(popgen.plain(rng, 30 if q else 300))
-    pops += list(popgen.shape(rng, 40 if q else 400))
-    pops += list(popgen.occupancy(rng, 70 if q else 700))
-    pops += list(popgen.affine(rng, 40 if q else 400))
-    pops += list(popgen.cascade(rng, 16 if q else 150))
-    base = list(popgen.shape(rng, 12 if q else 120)) + list(popgen.occupancy(rng, 20 if q else 200))
+    pops += list(popgen.plain(rng, 20 if q else 250))
+    pops += list(popgen.shape(rng, 28 if q else 350))
+    pops += list(popgen.occupancy(rng, 50 if q else 600))
+    pops += list(popgen.affine(rng, 26 if q else 350))
+    pops += list(popgen.cascade(rng, 10 if q else 120))
+    base = list(popgen.shape(rng, 8 if q else 100)) + list(popgen.occupancy(rng, 22 if q else 250))
     pops += list(popgen.with_spacetime(rng, base))
     pops += popgen.accelerators()
-    for _ in range(24 if q else 250):
+    for _ in range(16 if q else 200):
         y, meta = specgen_metrics.gen(rng)
         pops.append({"yaml": y, "kind": "generated-metrics", "arch": True, "syms": {}, "meta": meta})
-    pops += list(popgen.compute_only(rng, 6 if q else 60))
+    pops += list(popgen.compute_only(rng, 4 if q else 50))
     return pops
 
 
 def tiebreaks(ctx, k):
     """The tie-breaks tried for one specification: networkx's own + k others."""
-    tbs = [None, ("loopsfirst", ctx.rng.randrange(1 << 30))]
+    tbs = [None, ("lazy", ctx.rng.randrange(1 << 30))]
     pool = [("random", ctx.rng.randrange(1 << 30)), ("lifo", 0), ("loopslast", ctx.rng.randrange(1 << 30)),
-            ("random", ctx.rng.randrange(1 << 30)), ("fifo", 0), ("loopsfirst", ctx.rng.randrange(1 << 30))]
+            ("random", ctx.rng.randrange(1 << 30)), ("fifo", 0), ("loopsfirst", ctx.rng.randrange(1 << 30)),
+            ("lazy", ctx.rng.randrange(1 << 30))]
     ctx.rng.shuffle(pool)
     return tbs + pool[:max(0, k - 1)]
 
@@ -399,27 +418,47 @@ def structure_mismatch(real_flat, walk, depth_lists):
     return None
 
 
+def _compile_item(job):
+    """One specification under all its tie-breaks (runs in a forked worker; plain data out)."""
+    yaml, arch, tbs = job
+    rows = []
+    for tb in tbs:
+        try:
+            text, real_flat, records = compile_recorded(yaml, arch, tb)
+        except Exception as e:   # noqa
+            rows.append((tb, None, type(e).__name__ + ": " + str(e)[:80], None, None, None))
+            continue
+        try:
+            walk = reference_walk(yaml, arch, tb)
+        except Exception as e:   # noqa
+            walk = "reference walk raised %s: %s" % (type(e).__name__, str(e)[:200])
+        rows.append((tb, text, None, real_flat, records, walk))
+    return rows
+
+
 def check_specs(ctx, items, tbs_of, tag, stats):
     """Compile every item under every tie-break; run (A) and (B). Returns the list of
     (item, [(tb, text or None, error or None)])."""
+    import multiprocessing
+    t0 = time.time()
+    jobs = [(it["yaml"], it.get("arch", False), tbs_of(it)) for it in items]
+    nproc = max(1, min(8, vlib.NPROC // 2))
+    if nproc > 1 and len(jobs) > 8:
+        with multiprocessing.get_context("fork").Pool(nproc) as pool:
+            all_rows = pool.map(_compile_item, jobs, chunksize=4)
+    else:
+        all_rows = [_compile_item(j) for j in jobs]
+    stats["seconds_compile"] = round(time.time() - t0, 1)
     units = []      # (item index, tb, text, real_flat, records, walk)
     outcomes = []
-    for idx, it in enumerate(items):
-        arch = it.get("arch", False)
+    for idx, (it, rows) in enumerate(zip(items, all_rows)):
         row = []
-        for tb in tbs_of(it):
-            try:
-                text, real_flat, records = compile_recorded(it["yaml"], arch, tb)
-            except Exception as e:   # noqa
-                row.append((tb, None, type(e).__name__ + ": " + str(e)[:80]))
-                continue
-            try:
-                walk = reference_walk(it["yaml"], arch, tb)
-            except Exception as e:   # noqa
-                walk = "reference walk raised %s: %s" % (type(e).__name__, str(e)[:200])
-            row.append((tb, text, None))
-            units.append((idx, tb, text, real_flat, records, walk))
+        for tb, text, err, real_flat, records, walk in rows:
+            row.append((tb, text, err))
+            if text is not None:
+                units.append((idx, tb, text, real_flat, records, walk))
         outcomes.append((it, row))
+    t0 = time.time()
     # (A) kernel evaluation, de-duplicated on the term
     exprs, where = [], {}
     for u, (idx, tb, text, real_flat, records, walk) in enumerate(units):
@@ -429,8 +468,9 @@ def check_specs(ctx, items, tbs_of, tag, stats):
             if ex not in where:
                 where[ex] = len(exprs)
                 exprs.append(ex)
-    res = vlib.coq_eval_lines(tag, COQ_IMPORTS, "", exprs, shard=120)
+    res = vlib.coq_eval_lines(tag, COQ_IMPORTS, "", exprs, shard=60)
     stats["graphs_evaluated"] += len(exprs)
+    stats["seconds_kernel_graphs"] = round(time.time() - t0, 1)
     for u, (idx, tb, text, real_flat, records, walk) in enumerate(units):
         it = items[idx]
         depth_lists = []
@@ -496,6 +536,24 @@ def check_specs(ctx, items, tbs_of, tag, stats):
     return outcomes
 
 
+def _first_top_level(text, needle):
+    for i, ln in enumerate(text.split("\n")):
+        if needle in ln and not ln.startswith(" "):
+            return i
+    return None
+
+
+def graphics_flags(default_text, variant_text):
+    """Structural description of how two tie-break variants differ around the canvas: computed from
+    the emitted texts alone.  True when the variant creates the canvas AFTER a top-level dynamic
+    re-partitioning (Tensor.fromFiber ...) while networkx's order creates it before."""
+    def after(text):
+        c = _first_top_level(text, "createCanvas(")
+        f = _first_top_level(text, "Tensor.fromFiber(")
+        return c is not None and f is not None and f < c
+    return {"canvas_created_after_dynamic_partitioning": after(variant_text) and not after(default_text)}
+
+
 def behaviour_checks(ctx, outcomes, tag, stats):
     """(C): outcomes must not depend on the tie-break."""
     rng = ctx.rng
@@ -519,6 +577,7 @@ def behaviour_checks(ctx, outcomes, tag, stats):
         for tb, t in oks:
             if t not in [x for _, x in texts]:
                 texts.append((tb, t))
+        texts = texts[:MAX_EXECUTED_VARIANTS]
         stats["distinct_texts"] += len(texts)
         stats["specs_with_variants"] += 1 if len(texts) > 1 else 0
         stats["max_variants"] = max(stats["max_variants"], len(texts))
@@ -532,8 +591,12 @@ def behaviour_checks(ctx, outcomes, tag, stats):
             meta = {"kind": it["kind"], "variant": j, "nvariants": len(texts), "spec_index": sidx, "tiebreak": list(tb) if tb else None, "arch": bool(it.get("arch"))}
             cases.append(execlib.Case(spec, t, ext, data, scal, extra_ints=syms, meta=meta))
             da_items.append((it["kind"], spec, syms, t, meta))
+    t0 = time.time()
     execlib.evaluate(cases, tag)
+    stats["seconds_kernel_executions"] = round(time.time() - t0, 1)
+    t0 = time.time()
     da = c06.analyse(ctx, da_items, tag + "da")
+    stats["seconds_kernel_da"] = round(time.time() - t0, 1)
     by_spec = collections.defaultdict(list)
     for c, ((label, spec, syms, text, meta), r) in zip(cases, da):
         raw = getattr(c, "raw", None) or str(c.result)
@@ -549,7 +612,9 @@ def behaviour_checks(ctx, outcomes, tag, stats):
         rep = c.replay()
         rep.update({"arch": c.meta["arch"], "tiebreak": c.meta["tiebreak"], "mode": "behaviour", "default_result": raw0, "default_da": da0,
                     "variant_result": raw, "variant_da": d, "default_text": c0.text})
-        ctx.violation({"kind": "tiebreak-dependent-behaviour", "default_ok": raw0.startswith("RAN;OK;OK") and da0 == "OK"},
+        key = {"kind": "tiebreak-dependent-behaviour"}
+        key.update(graphics_flags(c0.text, c.text))
+        ctx.violation(key,
                       "the emitted program depends on the topological tie-break: under networkx's order it gives (%s, closedness %s), under %s (%s, closedness %s) "
                       "- a dependence is missing from the flow graph" % (raw0[:80], da0, tb_name(tuple(c.meta["tiebreak"]) if c.meta["tiebreak"] else None), raw[:80], d), rep)
 
@@ -559,7 +624,7 @@ def run(ctx):
     stats["by_tiebreak"] = collections.defaultdict(int)
     stats["by_kind"] = collections.defaultdict(int)
     items = gather(ctx)
-    k = 3 if ctx.quick() else 5
+    k = 2 if ctx.quick() else 5
     tbs = {id(it): tiebreaks(ctx, k) for it in items}
     outcomes = check_specs(ctx, items, lambda it: tbs[id(it)], "c10", stats)
     behaviour_checks(ctx, outcomes, "c10x", stats)
